@@ -142,7 +142,10 @@ fn judge_functions(ctx: &Ctx, text: &str, st: &mut Stats) {
         }
     };
     let hash = flow::hash_str(text);
-    for len in 0..=21usize {
+    // every length 0..=21 for every text; for six texts every length up to 130 (beyond the 16 hex / 20 decimal digits a
+    // 64-bit digest has, and beyond every text's own length)
+    let top = if ["", "main", "feature/x", "日本語テキスト", "a-very-long-branch-name-exceeding-twenty-one-chars", "0"].contains(&text) { 130usize } else { 21 };
+    for len in 0..=top {
         // hash: at most len characters, hex
         if let Some(o) = call(&format!("[{{{{ hash(value=bumped_branch, length={len}) }}}}]"), "hash", st) {
             let want: String = format!("{hash:x}").chars().take(len).collect();
@@ -254,6 +257,21 @@ fn main() {
         }}
         st
     }).reduce(Stats::default, Stats::merge);
+    // length sweep: one object whose branch name has every length 0..=400 (thorough 2000), so that the rendered versions
+    // cross every total length up to ~800 (2 x the name) characters: every part and the docker form stay complete
+    let s1 = {
+        let top = if quick { 400usize } else { 2000 };
+        let sch = RSchema { core: vec![V(RVar::Major), V(RVar::Minor), V(RVar::Patch)], extra_core: vec![V(RVar::PreRelease), V(RVar::BumpedBranch)], build: vec![V(RVar::BumpedBranch), V(RVar::Distance)] };
+        let sweep = (0..=top).into_par_iter().map(|n| {
+            let mut st = Stats::default();
+            let name: String = "feature/x1-".chars().cycle().take(n).collect();
+            let v = RVars { major: Some(1), minor: Some(2), patch: Some(3), pre: Some(("rc", Some(1))), distance: Some(5), bumped_branch: Some(name), custom: json!({}), ..Default::default() };
+            st.inc("length_sweep_objects");
+            judge_object(&ctx, &sch, &format!("length_sweep branch of {n} characters"), &v, &mut st);
+            st
+        }).reduce(Stats::default, Stats::merge);
+        s1.merge(sweep)
+    };
     let mut s2 = Stats::default();
     for (name, v) in &asg { judge_scalars(&ctx, name, v, &mut s2); }
     for kw in ["none", "NULL", "nil", " x ", "0"] { let v = RVars { major: Some(1), bumped_branch: Some(kw.into()), bumped_commit_hash: Some(kw.into()), custom: json!({}), ..Default::default() }; judge_scalars(&ctx, "keywords", &v, &mut s2); }
@@ -284,7 +302,7 @@ fn main() {
     cov.evaluations = cov.transitions;
     cov.traces_validated = cov.transitions;
     cov.distinct_nontrivial = all.get("objects");
-    cov.rule = format!("objects = schema programs (core<={lc}, extra<={le}, build<={lb} over the C06 component alphabet) x {} assignments: {{{{semver}}}}/{{{{pep440}}}} vs the formatters, part recomposition, docker form; scalar variables on every assignment + keyword texts; functions hash/hash_int/prefix x lengths 0..21 x {} texts (non-ASCII, multi-byte boundaries, keywords, numbers, bools) x allow_leading_zero, prefix_if, sanitize (presets, all separator/lowercase/keep_zeros combinations, max_length) vs R-SAN and R-SIP; format_timestamp x 7 formats x {} instants vs R-CAL with the harness under TZ=PST8. non-trivial = objects", asg.len(), pool.len(), instants.len());
+    cov.rule = format!("objects = schema programs (core<={lc}, extra<={le}, build<={lb} over the C06 component alphabet) x {} assignments: {{{{semver}}}}/{{{{pep440}}}} vs the formatters, part recomposition (also on one object whose branch name takes every length 0..=400, thorough 2000), docker form; scalar variables on every assignment + keyword texts; functions hash/hash_int/prefix x lengths 0..21 (0..130 for six texts) x {} texts (non-ASCII, multi-byte boundaries, keywords, numbers, bools) x allow_leading_zero, prefix_if, sanitize (presets, all separator/lowercase/keep_zeros combinations, max_length) vs R-SAN and R-SIP; format_timestamp x 7 formats x {} instants vs R-CAL with the harness under TZ=PST8. non-trivial = objects", asg.len(), pool.len(), instants.len());
     cov.exhaustive = true;
     cov.samples = vec![json!({"template":"{{ semver }} / parts","schema":"Major,str(\"1.2\") | PreRelease,Post | Distance","vars":"post_dev_no_label"}), json!({"function":"prefix","text":"a€b","length":2}), json!({"function":"format_timestamp","t":951782400u64,"format":"%j"})];
     cov.set("clause_counts", all.to_json());
